@@ -4,6 +4,7 @@ package main
 // arguments are biased to the boundaries read from the implementation's current state.
 
 import (
+	"bytes"
 	"fmt"
 	"sort"
 	"strconv"
@@ -374,6 +375,9 @@ func (p *provRunner) genOne(r *Rng, prof provProfile) string {
 		v := r.intn(prof.nv)
 		return fmt.Sprintf("commission v=%d c=%s rate=%s signer=%d", v, c, []string{"0.050000000000000000", "0.100000000000000000", "0.010000000000000000", "1.000000000000000000"}[r.intn(4)], v)
 	case 14:
+		if r.chance(25) {
+			return p.genMisb(r, prof)
+		}
 		return p.genEvidence(r, prof)
 	case 13:
 		p.chanSeq++
@@ -652,7 +656,7 @@ func genProv(prof provProfile) func(r *Rng, run Runner, n int, tier string) {
 					// consumers sharing chain ids (c0-1 twice) with different double-sign parameters, tombstoning on and off
 					cr = strings.Replace(cr, fmt.Sprintf("chain=c%d-1", i%4), fmt.Sprintf("chain=c%d-1", i%3), 1)
 					cr += fmt.Sprintf(" infr=1 ds=%s:%d:%d", []string{"0.050000000000000000", "0.010000000000000000", "0.500000000000000000", "0.000000000000000000"}[i%4],
-						[]int64{30 * sec, 9223372036854775807, 5 * sec}[i%3], i%2)
+						[]int64{30 * sec, 9223372036854775807, 5 * sec}[i%3], b2i(i%4 == 1))
 				}
 				run.Do(cr)
 				run.Do(fmt.Sprintf("optin v=%d c=%d key=- signer=%d", i%prof.nv, i, i%prof.nv))
@@ -720,8 +724,8 @@ func init() {
 	streams["infraction"] = StreamDef{New: func(t *Trace) Runner { return newProvRunner(t) }, Gen: genProv(inf)}
 	rw := provProfile{name: "rewards", nv: 5, maxvals: 5, M: 4, epoch: 2, unb: 12 * sec, prelaunch: 4, rewEpochs: 2, lowPower: true,
 		wCreate: 2, wUpdate: 3, wRemove: 1, wOpt: 14, wAssign: 2, wStake: 8, wBlock: 26, wMisc: 6, wChan: 6, wReward: 38}
-	ev := provProfile{name: "evidence", nv: 6, nvExtra: 4, maxvals: 8, M: 8, epoch: 3, unb: 40 * sec, prelaunch: 4, lowPower: true, keyPool: 6,
-		wCreate: 2, wUpdate: 3, wRemove: 2, wOpt: 8, wAssign: 14, wStake: 16, wBlock: 16, wInfr: 4, wVal: 6, wEvid: 34}
+	ev := provProfile{name: "evidence", nv: 6, nvExtra: 20, maxvals: 12, M: 12, epoch: 3, unb: 40 * sec, prelaunch: 4, lowPower: true, keyPool: 6,
+		wCreate: 2, wUpdate: 3, wRemove: 2, wOpt: 8, wAssign: 12, wStake: 14, wBlock: 16, wInfr: 4, wVal: 10, wEvid: 36}
 	streams["evidence"] = StreamDef{New: func(t *Trace) Runner { return newProvRunner(t) }, Gen: genProv(ev)}
 	streams["rewards"] = StreamDef{New: func(t *Trace) Runner { return newProvRunner(t) }, Gen: genProv(rw)}
 	streams["epoch"] = StreamDef{New: func(t *Trace) Runner { return newProvRunner(t) }, Gen: genProv(ep)}
@@ -753,6 +757,9 @@ func (p *provRunner) genEvidence(r *Rng, prof provProfile) string {
 		return v, false
 	}
 	v := r.intn(prof.nv + prof.nvExtra)
+	if lv := p.liveVals(); len(lv) > 0 && r.chance(80) {
+		v = lv[r.intn(len(lv))]
+	}
 	key, _ := kaOf(c, v)
 	switch {
 	case r.chance(10) && len(ids) > 1: // the key the validator uses on another consumer
@@ -889,4 +896,159 @@ func init() {
 		block(1)
 		_ = n
 	}}
+}
+
+// light-client-attack evidence: two conflicting headers of a consumer signed by (mostly) more than
+// 2/3 of a small validator set made of keys validators use on that consumer; single mutations of
+// everything CheckMisbehaviour and the light client look at; amnesia (same state, other round)
+func (p *provRunner) genMisb(r *Rng, prof provProfile) string {
+	if p.lastMisb != "" && r.chance(15) {
+		return p.lastMisb
+	}
+	ids := p.consumerIds()
+	c := "99"
+	if len(ids) > 0 && r.chance(97) {
+		c = ids[r.intn(len(ids))]
+		for try := 0; try < 3 && p.prev[c]["client"] == "-"; try++ {
+			c = ids[r.intn(len(ids))]
+		}
+	}
+	kaOf := func(v int) int {
+		for _, kv := range splitNE(p.prev[c]["ka"]) {
+			var a, b int
+			if n, _ := fmt.Sscanf(kv, "%d:%d", &a, &b); n == 2 && a == v {
+				return b
+			}
+		}
+		return v
+	}
+	nv := 4 + r.intn(4)
+	perm := r.perm(prof.nv + prof.nvExtra)
+	if lv := p.liveVals(); len(lv) >= 4 && r.chance(80) {
+		// mostly validators that can still be punished, a few others at the end
+		pp := r.perm(len(lv))
+		var front []int
+		for _, i := range pp {
+			front = append(front, lv[i])
+		}
+		perm = append(front, perm...)
+	}
+	var vals []string
+	used := map[int]bool{}
+	for _, v := range perm {
+		if len(vals) == nv {
+			break
+		}
+		k := kaOf(v)
+		if r.chance(8) {
+			k = p.genKey(r, prof)
+		}
+		if used[k] {
+			continue
+		}
+		used[k] = true
+		vals = append(vals, fmt.Sprintf("%d:%d", k, 1+r.intn(3)))
+	}
+	nv = len(vals)
+	flags := func() string {
+		b := bytes.Repeat([]byte{'c'}, nv)
+		if r.chance(28) {
+			for k := 0; k < 1+r.intn(2); k++ {
+				b[r.intn(nv)] = []byte{'a', 'a', 'a', 'n', 'b', 'w'}[r.intn(6)]
+			}
+		}
+		return string(b)
+	}
+	chain := p.prev[c]["chain"]
+	if chain == "" {
+		chain = "c0-1"
+	}
+	ch1, ch2 := chain, chain
+	switch {
+	case r.chance(5):
+		o := []string{"provider-1", fmt.Sprintf("c%d-1", r.intn(4))}[r.intn(2)]
+		ch1, ch2 = o, o
+	case r.chance(2):
+		ch2 = fmt.Sprintf("c%d-1", r.intn(4))
+	}
+	var evmin int64
+	fmt.Sscan(p.prev[c]["evmin"], &evmin)
+	h := evmin + []int64{-1, 0, 1, 1, 5, 100}[r.intn(6)]
+	if h < 3 {
+		h = 3
+	}
+	h2 := h
+	if r.chance(4) {
+		h2 = h - 1
+	}
+	if r.chance(2) {
+		h2 = h + 1
+	}
+	th := h - 1 - int64(r.intn(2))
+	if r.chance(3) {
+		th = h
+	}
+	if th < 1 {
+		th = 1
+	}
+	if r.chance(2) {
+		th = 0
+	}
+	r1 := int64(r.intn(2))
+	r2 := r1
+	st1, st2 := 1, 2
+	d1, d2 := 1, 1
+	switch r.intn(12) {
+	case 0: // identical headers
+		st2 = st1
+	case 1: // same state, different data, same round (not amnesia)
+		st2, d2 = st1, 2
+	case 2: // amnesia: same state transition, different rounds
+		st2, d2, r2 = st1, 2, r1+1
+	case 3: // conflicting and different rounds
+		r2 = r1 + 1
+	}
+	client := "own"
+	if r.chance(5) && len(ids) > 1 {
+		o := ids[r.intn(len(ids))]
+		if cl := p.prev[o]["client"]; cl != "-" && cl != "" {
+			client = cl
+		}
+	}
+	if r.chance(2) {
+		client = "07-tendermint-777"
+	}
+	trusted, age := 1, int64(3600)*sec
+	if r.chance(4) {
+		trusted = 0
+	}
+	if r.chance(4) {
+		age = []int64{14 * 24 * 3600 * sec, 14*24*3600*sec - 1, 15 * 24 * 3600 * sec}[r.intn(3)]
+	}
+	tvals := "same"
+	if r.chance(8) && nv > 2 {
+		tvals = strings.Join(vals[:nv-1], ",")
+	}
+	cchain := "own"
+	if r.chance(2) {
+		cchain = "c9-1"
+	}
+	s := fmt.Sprintf("misb c=%s client=%s vals=%s h1=%s/%d/%d/%d/%d/%s h2=%s/%d/%d/%d/%d/%s th=%d tvals=%s trusted=%d age=%d cchain=%s",
+		c, client, strings.Join(vals, ","), ch1, h, r1, st1, d1, flags(), ch2, h2, r2, st2, d2, flags(), th, tvals, trusted, age, cchain)
+	p.lastMisb = s
+	return s
+}
+
+// validators that exist and are not tombstoned (from the last snapshot "id:tokens:status:jailed:lp:tomb:until")
+func (p *provRunner) liveVals() []int {
+	var out []int
+	for _, e := range splitNE(p.prevG["stk"]) {
+		f := strings.Split(e, ":")
+		if len(f) >= 6 && f[5] == "0" && f[2] != "1" {
+			var id int
+			fmt.Sscan(f[0], &id)
+			out = append(out, id)
+		}
+	}
+	return out
 }
